@@ -20,6 +20,10 @@ type GuardRow struct {
 	Exempt    map[string]string   // "Type.method" or "func" -> reason (access tabled as outside the statement)
 	ReadsOK   map[string]string   // field -> reason: unlocked *reads* of this field are tolerated (writes still need W)
 	WOnly     bool                // only writes are checked (self-synchronising value; see DESIGN)
+	// ViaRecvType: the guarded struct has no mutex of its own; its fields are protected by the mutex
+	// <receiver>.<Mutex> of the enclosing method, whose receiver must be of this type (e.g. the
+	// chain pointers of orderedmap.Element are guarded by OrderedMap.mutex).
+	ViaRecvType string
 }
 
 type guardedField struct {
@@ -40,7 +44,13 @@ func checkGuards(r *Reporter, p *Prog, rule string, rows []GuardRow) {
 		}
 		_ = named
 		// mutex chain must resolve to a mutex type
-		if !resolveMutexChain(st, row.Mutex) {
+		if row.ViaRecvType != "" {
+			_, ost := p.NamedStruct(row.Pkg, row.ViaRecvType)
+			if ost == nil || !resolveMutexChain(ost, row.Mutex) {
+				r.Unresolved(rule, row.Pkg+"."+row.ViaRecvType+"."+row.Mutex, "owner type or its mutex not found")
+				continue
+			}
+		} else if !resolveMutexChain(st, row.Mutex) {
 			r.Unresolved(rule, row.Pkg+"."+row.Type+"."+row.Mutex, "mutex field chain does not resolve to a mutex type")
 			continue
 		}
@@ -167,6 +177,13 @@ func checkGuards(r *Reporter, p *Prog, rule string, rows []GuardRow) {
 					}
 					base += embeddedChain(sel, len(sel.Index())-1)
 					want := base + "." + gf.row.Mutex
+					if gf.row.ViaRecvType != "" {
+						if recvT != gf.row.ViaRecvType || recvPath == "" {
+							a.bad = append(a.bad, fmt.Sprintf("%s: %s.%s is accessed outside a method of %s, whose mutex guards it", p.posStr(x.Pos()), gf.row.Type, gf.field, gf.row.ViaRecvType))
+							return
+						}
+						want = recvPath + "." + gf.row.Mutex
+					}
 					if held[want] < need {
 						a.bad = append(a.bad, fmt.Sprintf("%s: %s of %s needs %s held %s, held: %s", p.posStr(x.Pos()), map[bool]string{true: "write", false: "read"}[write], displayPath(base)+"."+gf.field, displayPath(want), modeS, held))
 					}
@@ -653,6 +670,7 @@ func checkLockOrder(r *Reporter, p *Prog, rule string, o lockOrderOpts) {
 			return true
 		})
 		seen := map[ast.Node]bool{}
+		fresh := freshLocals(fi.info, fi.fd.Body)
 		AnalyzeLocks(fi.fd.Body, LockSet{}, opts, func(n ast.Node, stack []ast.Node, held LockSet) {
 			c, ok := n.(*ast.CallExpr)
 			if !ok || len(held) == 0 || seen[c] {
@@ -672,6 +690,11 @@ func checkLockOrder(r *Reporter, p *Prog, rule string, o lockOrderOpts) {
 				}
 				news = append(news, acq{class: lockClassOf(fi.info, c), rel: path, mode: m, where: p.posStr(c.Pos())})
 			} else if callee := staticCallee(fi.info, c); callee != nil && fns[callee] != nil {
+				if se, ok := c.Fun.(*ast.SelectorExpr); ok {
+					if ro := rootObj(fi.info, se.X); ro != nil && fresh[ro] {
+						return // receiver is an object still private to this function
+					}
+				}
 				news = translate(fi, c, callee)
 			}
 			for _, a := range news {
